@@ -519,11 +519,17 @@ fn run_history(run: &Run, r: &mut Rng) -> Result<HistoryResult, String> {
                         other: Some(o),
                     }
                 } else {
-                    Action::Mismatch {
-                        t,
-                        hash: sha_hex(&format!("{} ", texts[t].text)),
-                        other: None,
-                    }
+                    // a digest of a near-by text, or a mangled spelling of the true digest (a proper prefix of even
+                    // length, the empty string, the digest with extra digits): none of them is the SHA-256 of the text
+                    let true_hash = texts[t].hash.clone();
+                    let hash = match r.below(5) {
+                        0 => true_hash[..8].to_string(),
+                        1 => true_hash[..62].to_string(),
+                        2 => String::new(),
+                        3 => format!("{true_hash}00"),
+                        _ => sha_hex(&format!("{} ", texts[t].text)),
+                    };
+                    Action::Mismatch { t, hash, other: None }
                 }
             }
             4 => Action::WrongVersion {
